@@ -252,16 +252,16 @@ theorem router_inv (ops : List ROp) (f : Nat) : ∀ q : Queues,
         · simp [hf, tagsFor]
         · have hgf : g ≠ f := by rintro rfl; exact hf hg
           have : (ROp.reg g ≠ ROp.reg f) := by simpa using hgf
-          simp [hf, expectedQueue, List.dropWhile_cons, this]
+          simp [hf, expectedQueue, this]
       · simp only [routerStep, hg]
         by_cases hgf : g = f
         · subst hgf
           have hg' : q.has g = false := by simpa using hg
-          simp [has_append, hg', get_append, expectedQueue, List.dropWhile_cons, tagsFor, get_of_not_has _ _ hg']
+          simp [has_append, hg', get_append, expectedQueue, tagsFor, get_of_not_has _ _ hg']
         · by_cases hf : q.has f
           · simp [has_append, hf, get_append, tagsFor]
           · have : (ROp.reg g ≠ ROp.reg f) := by simpa using hgf
-            simp [has_append, hf, hgf, expectedQueue, List.dropWhile_cons, this]
+            simp [has_append, hf, hgf, expectedQueue, this]
     | pkt g t =>
       have hne : (ROp.pkt g t ≠ ROp.reg f) := by simp
       by_cases hg : q.has g
@@ -270,12 +270,12 @@ theorem router_inv (ops : List ROp) (f : Nat) : ∀ q : Queues,
         · by_cases hgf : g = f
           · subst hgf; simp [hf, get_put_same _ _ _ hg, tagsFor]
           · simp [hf, get_put_other _ _ _ _ hgf, tagsFor, hgf]
-        · simp [hf, expectedQueue, List.dropWhile_cons, hne]
+        · simp [hf, expectedQueue, hne]
       · simp only [routerStep, hg]
         by_cases hf : q.has f
         · have hgf : g ≠ f := by rintro rfl; exact hg hf
           simp [hf, tagsFor, hgf]
-        · simp [hf, expectedQueue, List.dropWhile_cons, hne]
+        · simp [hf, expectedQueue, hne]
 
 /-! ### CRTP header fields (finite: all 256 header bytes) -/
 
